@@ -13,7 +13,7 @@ import cert as C
 import recipes as R
 from props.c13 import monic, distribute
 
-THEOREMS = ["Adc.checkEquiv_sound", "Adc.elim_sound", "Adc.alpha_sound"]
+THEOREMS = ["Adc.checkEquiv_sound", "Adc.elim_sound", "Adc.alpha_sound", "Adc.isr_matrix_selfadjoint", "Adc.isr_orthonormal_series"]
 MIN = {"pp": "ph", "ip": "h", "ea": "p", "dip": "hh", "dea": "pp"}
 OCC, VIRT = "ijklmn", "abcdef"
 
